@@ -190,7 +190,7 @@ check('C14',
       'Coq theorems (Props/C14.v, axiom-free): a flow-sensitive may-alias effect analyser over a structured IR (assign / in-place write / '
       'unknown call / sequence / branch / loop; expressions alias-of, fresh, variable) is SOUND for a semantics in which a value denotes '
       'the set of input buffers it really shares memory with, view-or-copy is a free choice, and an execution may stop anywhere (the call '
-      'raised): an accepted function writes no input buffer in any execution or prefix of one (C14_analyser_sound). The IR of 56 pulsarbat '
+      'raised): an accepted function writes no input buffer in any execution or prefix of one (C14_analyser_sound). The IR of 58 pulsarbat '
       'functions and methods (all transforms, dedispersion, chirp, stft/istft, real_to_complex, slicing, like, dask helpers, '
       'polarisation/Stokes conversions, constructors and setters) is REGENERATED from the current source by translator T3 on every run and '
       'C14_every_function_accepted / C14_no_input_written are re-proved about it by vm_compute. PARTIAL: soundness is with respect to T3\'s '
